@@ -64,10 +64,10 @@ def sum_types(quick):
     for n in range(1, maxn + 1):
         pats = [tuple(payloads[(i + s) % 4] for i in range(n)) for s in range(4)]
         if n >= 3:
-            pats = pats[:2] if quick else pats
+            pats = pats[:2] if quick or n == 4 else pats
         for pat in pats:
             for disc in (False, True):
-                if disc and (n == 1 or (quick and n == 3)):
+                if disc and (n == 1 or (quick and n == 3) or (n == 4 and pat != pats[0])):
                     continue
                 k += 1
                 names = "ABCDEF"[:n]
